@@ -1574,13 +1574,15 @@ Proof.
     rewrite (O3 j b ltac:(lia) Hb'), (O2 j b ltac:(lia) Hb'). apply O1. eapply nth_error_In; eauto.
   - destruct (nth_error roots k) as [r|] eqn:Hk; [|split; auto].
     destruct (c19_allsep_op h roots k r o S Hk) as (S' & O). split; auto.
+    intros j b Hb Hj. apply (O j b Hj Hb).
 Qed.
 
 (* the ownership invariant holds along every session *)
 Lemma c19_session_inv fl : fl_copy_deep fl = true -> fl_export_deep fl = true ->
   forall l w, c19_allsep (fst w) (snd w) -> c19_allsep (fst (c19_srun fl w l)) (snd (c19_srun fl w l)).
 Proof.
-  intros Hc He. induction l as [|s l IH]; intros [h roots] S; simpl; auto.
+  intros Hc He. induction l as [|s l IH]; intros [h roots] S; [exact S|].
+  change (c19_srun fl (h, roots) (s :: l)) with (c19_srun fl (c19_sstep fl (h, roots) s) l).
   apply IH. pose proof (c19_sstep_ok fl h roots s Hc He S) as K.
   destruct (c19_sstep fl (h, roots) s) as [h' roots']. apply K.
 Qed.
@@ -1592,10 +1594,11 @@ Lemma c19_session_thm fl : fl_copy_deep fl = true -> fl_export_deep fl = true ->
   forall j b, nth_error (snd w1) j = Some b -> match s with C19SOp k _ => j <> k | _ => True end ->
               c19_obs (fst (c19_sstep fl w1 s)) b = c19_obs (fst w1) b.
 Proof.
-  intros Hc He l w s S w1 j b Hb Hs.
-  pose proof (c19_session_inv fl Hc He l w S) as S1. fold w1 in S1. destruct w1 as [h1 roots1].
+  intros Hc He l w s S. cbv zeta.
+  generalize (c19_session_inv fl Hc He l w S). destruct (c19_srun fl w l) as [h1 roots1].
+  cbn [fst snd]. intros S1 j b Hb Hs.
   pose proof (c19_sstep_ok fl h1 roots1 s Hc He S1) as K.
-  destruct (c19_sstep fl (h1, roots1) s) as [h' roots']. apply K; assumption.
+  destruct (c19_sstep fl (h1, roots1) s) as [h' roots']. cbn [fst]. apply (proj2 K j b Hb Hs).
 Qed.
 
 (* the flags of the current source *)
